@@ -20,20 +20,20 @@ import (
 )
 
 // slowConn counts its clean-up.
-type slowConn struct {
+type vfSlowConn struct {
 	mu     *sync.Mutex
 	closed *int
 }
 
-func (c *slowConn) ReadFrom() (ndp.Message, *ipv6.ControlMessage, netip.Addr, error) {
+func (c *vfSlowConn) ReadFrom() (ndp.Message, *ipv6.ControlMessage, netip.Addr, error) {
 	return nil, nil, netip.Addr{}, fmt.Errorf("not readable")
 }
-func (c *slowConn) SetReadDeadline(time.Time) error { return nil }
-func (c *slowConn) WriteTo(ndp.Message, *ipv6.ControlMessage, netip.Addr) error {
+func (c *vfSlowConn) SetReadDeadline(time.Time) error { return nil }
+func (c *vfSlowConn) WriteTo(ndp.Message, *ipv6.ControlMessage, netip.Addr) error {
 	return nil
 }
-func (c *slowConn) LeaveGroup(netip.Addr) error { return nil }
-func (c *slowConn) Close() error {
+func (c *vfSlowConn) LeaveGroup(netip.Addr) error { return nil }
+func (c *vfSlowConn) Close() error {
 	c.mu.Lock()
 	*c.closed++
 	c.mu.Unlock()
@@ -45,12 +45,12 @@ func (c *slowConn) Close() error {
 // cleaned up exactly once before Dial returns, never two at a time, and autoconf is put back.
 //
 //	sld adv lat hold | opened cleaned maxOpen acRestored status
-func runSlowDial(t *testing.T, out *vfh.Out, adv bool, lat, hold time.Duration) {
+func vfRunSlowDial(t *testing.T, out *vfh.Out, adv bool, lat, hold time.Duration) {
 	out.Pending(fmt.Sprintf("runSlowDial adv=%v dialTakes=%v taskRuns=%v", adv, lat, hold))
 	synctest.Test(t, func(t *testing.T) {
 		var mu sync.Mutex
 		opened, closed, open, maxOpen := 0, 0, 0, 0
-		st := &slowState{ac: true}
+		st := &vfSlowState{ac: true}
 		mode := Monitor
 		if adv {
 			mode = Advertise
@@ -72,7 +72,7 @@ func runSlowDial(t *testing.T, out *vfh.Out, adv bool, lat, hold time.Duration) 
 				maxOpen = open
 			}
 			mu.Unlock()
-			c := &slowConn{mu: &mu, closed: &closed}
+			c := &vfSlowConn{mu: &mu, closed: &closed}
 			return &DialContext{Conn: c, Interface: &net.Interface{Index: 1, Name: "vf0"}, IP: netip.MustParseAddr("fe80::1"),
 				done: func() error {
 					_ = c.LeaveGroup(netip.IPv6LinkLocalAllRouters())
@@ -119,28 +119,28 @@ func runSlowDial(t *testing.T, out *vfh.Out, adv bool, lat, hold time.Duration) 
 	})
 }
 
-type slowState struct {
+type vfSlowState struct {
 	mu sync.Mutex
 	ac bool
 }
 
-func (s *slowState) IPv6Autoconf(string) (bool, error)   { s.mu.Lock(); defer s.mu.Unlock(); return s.ac, nil }
-func (s *slowState) IPv6Forwarding(string) (bool, error) { return true, nil }
-func (s *slowState) SetIPv6Autoconf(_ string, b bool) error {
+func (s *vfSlowState) IPv6Autoconf(string) (bool, error)   { s.mu.Lock(); defer s.mu.Unlock(); return s.ac, nil }
+func (s *vfSlowState) IPv6Forwarding(string) (bool, error) { return true, nil }
+func (s *vfSlowState) SetIPv6Autoconf(_ string, b bool) error {
 	s.mu.Lock()
 	s.ac = b
 	s.mu.Unlock()
 	return nil
 }
-func (s *slowState) get() bool { s.mu.Lock(); defer s.mu.Unlock(); return s.ac }
+func (s *vfSlowState) get() bool { s.mu.Lock(); defer s.mu.Unlock(); return s.ac }
 
 func verifSlowDial(t *testing.T, r *vfh.Rand, out *vfh.Out) {
 	for _, adv := range []bool{true, false} {
 		for _, lat := range []time.Duration{0, time.Second, 4900 * time.Millisecond, 5100 * time.Millisecond, 7 * time.Second, 31 * time.Second, 3 * time.Minute} {
-			runSlowDial(t, out, adv, lat, 2*time.Second)
+			vfRunSlowDial(t, out, adv, lat, 2*time.Second)
 		}
 	}
 	for k := vfh.N(6, 100); k > 0; k-- {
-		runSlowDial(t, out, r.Bool(), time.Duration(r.Range(0, int64(2*time.Minute))), time.Duration(r.Range(0, int64(20*time.Second))))
+		vfRunSlowDial(t, out, r.Bool(), time.Duration(r.Range(0, int64(2*time.Minute))), time.Duration(r.Range(0, int64(20*time.Second))))
 	}
 }
